@@ -69,7 +69,7 @@ of a cached pod labelled with and controlled by the Job that is neither found no
 theorem finalizerTasks_mem (s : Sys) (jo : JobObj) (rj : Job) (t : Task) :
     t ∈ finalizerTasks s jo rj ↔
       t ∈ tasksForRefsConfirmed s jo rj.status.tasks ∨
-      ∃ p ∈ s.podCache, podTask p = some t ∧ p.jobLabel = some jo.uid ∧ p.ownerUid = some jo.uid ∧
+      ∃ p ∈ s.podCache, podTask s.clock p = some t ∧ p.jobLabel = some jo.uid ∧ p.ownerUid = some jo.uid ∧
         (∀ t' ∈ tasksForRefsConfirmed s jo rj.status.tasks, t'.name ≠ p.pod.name) ∧
         (∀ r ∈ rj.status.tasks, r.name ≠ p.pod.name) :=
   mem_finalizerTasks s jo rj t
@@ -79,7 +79,7 @@ theorem finalizerTasks_mem (s : Sys) (jo : JobObj) (rj : Job) (t : Task) :
 deleted yet gets a graceful delete call from the finalizer step of a deleted Job, whatever the
 faults, and the finalizer is kept. -/
 theorem unrecorded_task_swept (s : Sys) (jo : JobObj) (rj : Job) (p : PodObj) (t : Task)
-    (hd : rj.deletionTimestamp.isSome = true) (hp : p ∈ s.podCache) (ht : podTask p = some t)
+    (hd : rj.deletionTimestamp.isSome = true) (hp : p ∈ s.podCache) (ht : podTask s.clock p = some t)
     (hl : p.jobLabel = some jo.uid) (ho : p.ownerUid = some jo.uid)
     (hu : ∀ r ∈ rj.status.tasks, r.name ≠ p.pod.name) (hnd : t.deletionTimestamp = none) :
     (∃ c ∈ newCalls s (handleFinalizer s jo rj true).1, c.verb = "delete" ∧ c.res = "pods" ∧ c.force = false ∧ c.name = t.name) ∧
@@ -123,7 +123,7 @@ example :
     let p : PodObj := { pod with pod := { pod.pod with phase := .pending, startTime := none, containers := [] } }
     let s : Sys := { clock := sec 100, d := { hash := "d" }, pods := [p], podCache := [p] }
     let jo : JobObj := ⟨"job", "u", rj, true, 1⟩
-    (podTask p).isSome = true ∧ rj.status.tasks = [] ∧
+    (podTask s.clock p).isSome = true ∧ rj.status.tasks = [] ∧
     (newCalls s (handleFinalizer s jo rj true).1).map brief = [("delete", "pods", "job-d-0", "ok", false)] ∧
     (handleFinalizer s jo rj true).2.map (·.2) = some true ∧
     (handleFinalizer { s with pods := [], podCache := [] } jo rj true).2.map (·.2) = some false := by
